@@ -117,8 +117,8 @@ def find_key(t):
     return None
 
 
-def lookup_fact(c):
-    """(key, present?) when the condition c states whether the registry holds key; else None"""
+def lookup_fact(c, mapname=MAP):
+    """(key, present?) when the condition c states whether the map member `mapname` holds key; else None"""
     neg = False
     while c[0] == 'not':
         neg = not neg
@@ -126,12 +126,12 @@ def lookup_fact(c):
     if c[0] == 'call' and c[1] in ('op:operator==', 'op:operator!=') and len(c[2]) == 2:
         a, b = c[2]
         for x, y in ((a, b), (b, a)):
-            if x[0] == 'mcall' and x[2] == 'find' and x[1] == ('sym', MAP) and len(x[3]) == 1 and y[0] == 'mcall' and y[2] in ('end', 'cend') and y[1] == ('sym', MAP):
+            if x[0] == 'mcall' and x[2] == 'find' and x[1] == ('sym', mapname) and len(x[3]) == 1 and y[0] == 'mcall' and y[2] in ('end', 'cend') and y[1] == ('sym', mapname):
                 present = (c[1] == 'op:operator!=') != neg
                 return x[3][0], present
     if c[0] == 'cmp' and c[1] in ('==', '!=', '>', '<') and len(c) == 4:
         for x, y in ((c[2], c[3]), (c[3], c[2])):
-            if x[0] == 'mcall' and x[2] == 'count' and x[1] == ('sym', MAP) and len(x[3]) == 1 and y == terms.num(0):
+            if x[0] == 'mcall' and x[2] == 'count' and x[1] == ('sym', mapname) and len(x[3]) == 1 and y == terms.num(0):
                 if c[1] == '==':
                     present = neg
                 elif c[1] == '!=':
@@ -141,7 +141,7 @@ def lookup_fact(c):
                 else:
                     return None
                 return x[3][0], present
-    if c[0] == 'mcall' and c[2] == 'count' and c[1] == ('sym', MAP) and len(c[3]) == 1:
+    if c[0] == 'mcall' and c[2] == 'count' and c[1] == ('sym', mapname) and len(c[3]) == 1:
         return c[3][0], not neg
     return None
 
